@@ -53,6 +53,8 @@ pub struct EnvCfg {
   pub single_event_wakeups: bool,
   /// the loop's `verbose` argument (its diagnostics go to stderr, which the explorer points at /dev/null meanwhile)
   pub verbose: bool,
+  /// deviation: a device wake-up with nothing to read (the readers skip records that are not key / tablet-mode changes)
+  pub empty_wakeups: bool,
 }
 
 pub struct Env<'a> {
@@ -168,6 +170,8 @@ impl<'a> ScriptedDriver for Env<'a> {
       }
       if t_us.is_none() && self.devs_left > 0 { menu.push("timeout-spurious"); }
       if self.devs_left > 0 { menu.push("interrupted"); }
+      // a wake-up that carries nothing the loop can use (only records the readers skip: sync, scan codes, other switches)
+      if self.devs_left > 0 && self.cfg.empty_wakeups && !self.end_delivered { menu.push("empty-wakeup-k"); if self.cfg.max_tablet > 0 || self.cfg.tablet_end { menu.push("empty-wakeup-t"); } }
       if n_arr + menu.len() == 0 {
         // nothing can happen any more (device gone and read): a faithful poll would block for ever
         self.horizon = true; self.log.push(Call::Poll { timeout_us: t_us, at_us: at, ret: PollRet::Interrupted, after_us: at, unread_k, unread_t, label: "blocked" });
@@ -210,6 +214,10 @@ impl<'a> ScriptedDriver for Env<'a> {
             label = "timeout-late"; ret = PollRet::TimedOut;
           }
           "timeout-spurious" => { self.devs_left -= 1; label = "timeout-spurious"; ret = PollRet::TimedOut; }
+          "empty-wakeup-k" | "empty-wakeup-t" => {
+            self.devs_left -= 1; if let Some(t) = t_us.filter(|t| *t < 1_000_000_000_000) { if t > 1 { clock_advance_us(t / 2); } }
+            label = "empty-wakeup"; ret = PollRet::Dev(vec![if what == "empty-wakeup-k" { 0 } else { 1 }]);
+          }
           _ => { self.devs_left -= 1; if let Some(t) = t_us.filter(|t| *t < 1_000_000_000_000) { if t > 1 { clock_advance_us(t / 2); } } label = "interrupted"; ret = PollRet::Interrupted; }
         }
       }
